@@ -1,18 +1,19 @@
 import Lean.Data.Json
-import DrummerVerif.Model.Elect
+import DrummerVerif.Model.ElectF
 open Lean Elect
 
 def jn (j : Json) (k : String) : Nat := (j.getObjValAs? Nat k).toOption.getD 0
 def js (j : Json) (k : String) : String := (j.getObjValAs? String k).toOption.getD ""
 def jb (j : Json) (k : String) : Bool := (j.getObjValAs? Bool k).toOption.getD false
 
-def show_ (ss : List Srv) (r : Rec) : String :=
-  s!"rec={recInst r}/{recTick r}" ++ String.join (ss.map fun s =>
+def show_ (ss : List SrvF) (r : Rec) : String :=
+  s!"rec={recInst r}/{recTick r}" ++ String.join (ss.map fun (sf : SrvF) =>
+    let s := sf.base
     match s.cur with
     | some c => s!" [{s.leader} {c.inst}/{c.tick}/{c.static}]"
     | none => s!" [{s.leader} -]")
 
-partial def loop (h : IO.FS.Stream) (ss : List Srv) (r : Rec) : IO Unit := do
+partial def loop (h : IO.FS.Stream) (ss : List SrvF) (r : Rec) : IO Unit := do
   let line ← h.getLine
   if line.isEmpty then return ()
   match Json.parse line with
@@ -20,13 +21,15 @@ partial def loop (h : IO.FS.Stream) (ss : List Srv) (r : Rec) : IO Unit := do
   | .ok j =>
     if js j "op" == "new" then
       IO.println "new"
-      loop h ((List.range (jn j "n")).map fun i => { id := i + 1 }) none
+      loop h ((List.range (jn j "n")).map fun i => { base := { id := i + 1 } }) none
     else
       let i := jn j "srv"
       match ss[i]? with
       | none => IO.println "bad-op"; loop h ss r
       | some s =>
-        match turn s r (jb j "cancel") with
+        -- "fail": k = the DB operations of the turn fail from the k-th on (0: none); "cancel" = the whole turn fails
+        let fa := if jb j "cancel" then 1 else jn j "fail"
+        match turnF s r fa with
         | none => IO.println "panic"; loop h ss r
         | some (s', r') =>
           let ss' := ss.set i s'
